@@ -96,8 +96,8 @@ func (c *Chunker) Next() (*proto.LoadChunkRequest, error) {
 		n, err := c.r.Read(intermediateBuffer)
 		totalRead += int64(n)
 		if n > 0 {
-			if _, err = gw.Write(intermediateBuffer[:n]); err != nil {
-				return nil, err
+			if _, werr := gw.Write(intermediateBuffer[:n]); werr != nil {
+				return nil, werr
 			}
 		}
 		if err != nil {
@@ -135,7 +135,7 @@ func (c *Chunker) Next() (*proto.LoadChunkRequest, error) {
 	return &proto.LoadChunkRequest{
 		StreamId:    c.streamID,
 		SequenceNum: c.sequenceNum,
-		IsLast:      totalRead < c.chunkSize,
+		IsLast:      c.finished,
 		Data:        buf.Bytes(),
 	}, nil
 }
